@@ -15,7 +15,7 @@ func init() {
 }
 
 func rulesC15(c *Ctx, r *Report) {
-	r.explain("Decides: (PURE) Has, ForEach, keys and MarshalJSON never write the trie they observe (an observer that created or removed nodes would change the set); (DEL-NF) in Delete no write to the trie lies on a path to `return false`; (DEL-PRUNE) Delete's upward pruning continues past an ancestor exactly when that ancestor has no children left (map length 0), so members without the deleted prefix are never removed; (KEYS-ALL) keys() appends the key of every iteration of a range over the node's map — every child is enumerated; ForEach's per-node progress is compared with the number of children of the same node; (JSON-MIRROR) MarshalJSON marshals a mirror struct that holds the node's own map unchanged and UnmarshalJSON stores the mirror's map back, the two mirror types being identical; (YD1/REENTRANT) ForEach makes no callback after a false result and keeps its working state local. Not decided: everything history-dependent — the set model, exactly-once enumeration, the JSON round trip as an equality. Added rules: (DEL-WALK) every path from a child lookup to the deletion phase passes a nil test of its result; (DEL-ONLY) Delete's writes are all delete(); (ADD-GUARD) Add stores a child only on the nil edge of a lookup of the same map and key; (EMPTY-KEY) with an empty argument Has can only return true and Add reaches no write; (STALE-ELEM) no element pointer of ForEach's stack is used after an append; DEL-PRUNE is decided on the loop automaton.")
+	r.explain("Decides: (PURE) Has, ForEach, keys and MarshalJSON never write the trie they observe (an observer that created or removed nodes would change the set); (DEL-NF) in Delete no write to the trie lies on a path to `return false`; (DEL-PRUNE) Delete's upward pruning continues past an ancestor exactly when that ancestor has no children left (map length 0), so members without the deleted prefix are never removed; (KEYS-ALL) keys() appends the key of every iteration of a range over the node's map — every child is enumerated; ForEach's per-node progress is compared with the number of children of the same node; (JSON-MIRROR) MarshalJSON marshals a mirror struct that holds the node's own map unchanged and UnmarshalJSON stores the mirror's map back, the two mirror types being identical; (YD1/REENTRANT) ForEach makes no callback after a false result and keeps its working state local. Not decided: everything history-dependent — the set model, exactly-once enumeration, the JSON round trip as an equality. Added rules: (DEL-WALK) every path from a child lookup to the deletion phase passes a nil test of its result; (DEL-ONLY) Delete's writes are all delete(); (ADD-GUARD) Add stores a child only on the nil edge of a lookup of the same map and key; (EMPTY-KEY) with an empty argument Has can only return true and Add reaches no write; (STALE-ELEM) no element pointer of ForEach's stack is used after an append; DEL-PRUNE is decided on the loop automaton. KEYS-ALL additionally: every byte appended to the key list is the key of an iteration over the node's map.")
 	r.assume("encoding/json round-trips map[byte]*Trie through the exported mirror field")
 	e := effFor(c)
 	n := 0
